@@ -16,7 +16,7 @@ V = os.path.dirname(os.path.dirname(os.path.abspath(__file__)))
 sys.path.insert(0, os.path.join(V, "engines", "rules"))
 import thorough  # noqa: E402
 
-PROPS = ["C%02d" % i for i in range(1, 18)]
+PROPS = os.environ["VERIF_PROPS"].split(",") if os.environ.get("VERIF_PROPS") else ["C%02d" % i for i in range(1, 18)]   # VERIF_PROPS=C01,C09: rerun only these checks
 
 
 def one(sd):
